@@ -20,7 +20,7 @@ from ..corpus import b64, unb64
 PROP = "C15"
 LEVEL = "fault_enumeration"
 COUNTS = {"quick": 300, "thorough": 2600}
-WALL = {"quick": 170, "thorough": 3300}
+WALL = {"quick": 900, "thorough": 6000}
 RULE = (
     "scenario = seeded workload (1-5 pool documents, names, scan|fix, flags, world) + list of faults drawn from the sites "
     "its dry run reached (thorough: every audited fs step of every fix x {kill, kill_trunc, kill_partial, EIO/ENOSPC/EACCES}, "
@@ -35,6 +35,7 @@ ASSUMPTIONS = [
     "after a kill only 'untouched or completely fixed' is judged; after an injected OS error the reporting clause is recorded, not judged",
 ]
 PROBES = [
+    "shape:dirty-chain",
     "through_api",
     "two_faults_in_one_run",
     "kill_during_working_copy_write",
@@ -241,7 +242,70 @@ def _double_faults(rng, cb, parse, names, plan, count):
     return out
 
 
+def _generate_dirty_chain(rng, tier):
+    """a b1 a b2 ... with --continue-on-error: every `a` is cut short in the middle of
+    its token / line dispatch (exception at the last rule in dispatch order, after all
+    built-in rules have seen half of the document) or by a parser failure at its middle
+    line; every b must be processed exactly as if the a files were absent."""
+    from .. import corpus
+
+    docs = corpus.load()
+    usable = [n for n in corpus.usable(docs) if n in carriers.CARRIERS and docs[n].tags.get("lines", 0) < 200]
+    a_name = rng.choice(usable)
+    same_group = [n for n in usable if docs[n].group == docs[a_name].group]
+    b_names = [rng.choice(same_group if rng.random() < 0.5 else usable) for _ in range(rng.choice([3, 4, 5]))]
+    mode = rng.choice(["scan", "scan", "fix"])
+    files, labels, a_files = {}, {}, []
+    position = 0
+    for b_name in b_names:
+        for name in (a_name, b_name):
+            path = "f%03d.md" % position
+            files[path] = docs[name].data
+            labels[path] = name
+            if name == a_name and position % 2 == 0:
+                a_files.append(path)
+            position += 1
+    probes = {"zzz999": {"fix": mode == "fix", "level": 0}}
+    flags = ["--continue-on-error"] + workload.probe_flags(["zzz999"])
+    sc = {
+        "cls": workload.draw_class(rng),
+        "world": workload.draw_world(rng),
+        "files": workload.files_to_spec(files),
+        "labels": labels,
+        "mode": mode,
+        "flags": flags,
+        "api": False,
+        "coe": True,
+        "scheme": "default",
+        "probes": probes,
+        "paths": sorted(files),
+        "tier": tier,
+        "faults": [],
+        "shape": "dirty-chain",
+    }
+    dry = cached_run(_request(sc, sc["files"], sc["paths"], record_sites=True), sc["cls"])
+    if not done(dry):
+        sc["skip"] = "dry run status %s" % dry.get("status")
+        return sc
+    phase = rng.choice(["token", "line", "prov"])
+    site_name = {"token": "cb/zzz999/next_token", "line": "cb/zzz999/next_line", "prov": "prov"}[phase]
+    plans = []
+    for path in a_files:
+        occurrences = [s for s in dry["result"]["sites"] if s[0] == site_name and s[1] == path]
+        if not occurrences:
+            continue
+        site = occurrences[(len(occurrences) - 1) // 2] if rng.random() < 0.6 else rng.choice(occurrences)
+        entry = {"site": site[0], "file": site[1], "ord": site[2], "act": "raise" if phase == "prov" else "raise_after", "exc": "RuntimeError"}
+        plans.append((path, entry))
+    if plans:
+        first = plans[0]
+        sc["faults"] = [{"kind": "prov" if phase == "prov" else "cb", "file": first[0], "plan": first[1], "more": [{"file": p, "plan": e} for p, e in plans[1:]], "needs_coe": True}]
+    return sc
+
+
 def generate(rng, tier, index):
+    if rng.random() < 0.25:
+        return _generate_dirty_chain(rng, tier)
     mode = rng.choice(["scan", "fix", "fix"])
     count = rng.choice([1, 2, 2, 3, 3, 4, 5])
     need = ["fixable"] if mode == "fix" and rng.random() < 0.7 else None
@@ -538,6 +602,8 @@ def evaluate(sc):
     stats["coe:%s" % sc["coe"]] += 1
     if sc.get("api"):
         stats["through_api"] += 1
+    if sc.get("shape"):
+        stats["shape:" + sc["shape"]] += 1
     return {"violations": violations, "evals": evals, "digests": digests, "stats": dict(stats), "faults": dict(faults)}
 
 
